@@ -4,10 +4,11 @@
    (suites/dct/c15.go), not by a theorem. What is proved here are the facts about the
    library's side that such agreement rests on: the entropy-layer table descriptions, the
    zig-zag order, DQT written = parsed, that every index the baseline decoder forms is inside
-   its buffers, and where the decoder's block grid is (and is not) the grid of the scan.
-   The negative results (_refuted) are findings about /repo as it stands. *)
+   its buffers, that the decoder's block grid is the grid of the scan, and that every pixel is
+   read from the block the scan wrote for it. The remaining negative result (_refuted) is a
+   finding about an unused table of /repo. *)
 From V Require Import Common.Base Gen.JpegTables_gen JpegDCT.DctQuant JpegDCT.DctZigzag JpegDCT.DctGeometry
-  JpegDCT.DctProofsA JpegDCT.DctProofsB.
+  JpegDCT.DctPipeline JpegDCT.DctProofsA JpegDCT.DctProofsB.
 
 (* every BITS/HUFFVAL pair of jpeg/standard is a valid prefix-code description: 16
    non-negative counts summing to the number of symbols, Kraft sum < 1 within 16 bits (the
@@ -81,29 +82,81 @@ Print Assumptions C15_block_write_in_range.
 Example C15_block_write_instance : block_written 3 2 2 1 = true /\ block_written 3 2 3 1 = false.
 Proof. split; vm_compute; reflexivity. Qed.
 
-(* finding: the decoder's block grid is not the grid of the scan for ordinary 4:2:0 *)
-Theorem C15_scan_grid_refuted : ~ scan_grid_statement.
-Proof. exact scan_grid_refuted. Qed.
-Print Assumptions C15_scan_grid_refuted.
+(* The decoder's block grid is the grid of the scan (parseSOF: comp.width = mcuCols*H,
+   comp.height = mcuRows*V), for all sampling factors >= 1 — in particular H,V in 1..4 per
+   component — and all widths and heights >= 1.
+   Historical note (finding F16, fixed): before the fix the grid was
+   DivCeil(width*H, maxH*8) x DivCeil(height*V, maxV*8); witness 17x9 4:2:0, where the scan's
+   padding block (3,0) landed on the cell of block (0,1) and ordinary 4:2:0 pictures with an
+   odd luma block count per row came out corrupted. The former theorems scan_grid_refuted /
+   scan_grid_420_characterised recorded that state of the code. *)
 
-(* exactly where, on widths and heights 1..40: 4:2:0 luma is right iff the luma block count
-   per row is even or 1, or there is a single block row *)
-Theorem C15_scan_grid_420_characterised :
-  forallb (fun w => forallb (fun h =>
-    Bool.eqb (grid_ok w h [(2, 2); (1, 1); (1, 1)] (2, 2))
-             (Z.even (div_ceil w 8) || (div_ceil w 8 =? 1) || (h <=? 8))) sizes40) sizes40 = true.
-Proof. exact scan_grid_420_characterised. Qed.
-Print Assumptions C15_scan_grid_420_characterised.
+(* (1) every scan block (mcuX*H+h, mcuY*V+v) is a cell of the grid ... *)
+Theorem C15_scan_block_in_grid : forall width height comps hv b,
+  1 <= fst hv -> 1 <= snd hv ->
+  In b (scan_blocks width height comps hv) ->
+  0 <= fst b < comp_wb width comps hv /\ 0 <= snd b < comp_hb height comps hv.
+Proof. exact scan_block_in_grid. Qed.
+Print Assumptions C15_scan_block_in_grid.
 
-(* 4:4:4 / grey, and 4:2:2, 4:4:0, and the chroma planes of 4:2:0: right on the whole range *)
-Theorem C15_scan_grid_ok_444 : forall w h, 1 <= w <= 40 -> 1 <= h <= 40 ->
-  grid_ok w h [(1, 1)] (1, 1) = true /\ grid_ok w h [(1, 1); (1, 1); (1, 1)] (1, 1) = true.
-Proof. exact scan_grid_ok_444. Qed.
-Print Assumptions C15_scan_grid_ok_444.
-Theorem C15_scan_grid_422_440_ok :
-  forallb (fun w => forallb (fun h =>
-    grid_ok w h [(2, 1); (1, 1); (1, 1)] (2, 1) && grid_ok w h [(2, 1); (1, 1); (1, 1)] (1, 1) &&
-    grid_ok w h [(1, 2); (1, 1); (1, 1)] (1, 2) && grid_ok w h [(1, 2); (1, 1); (1, 1)] (1, 1) &&
-    grid_ok w h [(2, 2); (1, 1); (1, 1)] (1, 1)) sizes40) sizes40 = true.
-Proof. exact scan_grid_422_440_ok. Qed.
-Print Assumptions C15_scan_grid_422_440_ok.
+(* ... passes decodeBlock's guard and is written wholly inside the component buffer ... *)
+Theorem C15_scan_block_written : forall width height comps hv b i,
+  1 <= fst hv -> 1 <= snd hv -> In b (scan_blocks width height comps hv) -> 0 <= i < 64 ->
+  block_written (comp_wb width comps hv) (comp_hb height comps hv) (fst b) (snd b) = true /\
+  0 <= block_offset (comp_wb width comps hv) (fst b) (snd b) + i < comp_len width height comps hv.
+Proof. exact scan_block_written. Qed.
+Print Assumptions C15_scan_block_written.
+
+(* ... distinct cells have distinct offsets ... *)
+Theorem C15_cell_offset_inj : forall wb bx by_ bx' by', 0 <= bx < wb -> 0 <= bx' < wb ->
+  block_offset wb bx by_ = block_offset wb bx' by' -> bx = bx' /\ by_ = by'.
+Proof. exact cell_offset_inj. Qed.
+Print Assumptions C15_cell_offset_inj.
+
+(* ... and (2) after the scan every cell (bx,by) holds the data of scan block (bx,by) *)
+Theorem C15_scan_grid_ok : forall width height comps hv bx by_,
+  1 <= fst hv -> 1 <= snd hv ->
+  0 <= bx < comp_wb width comps hv -> 0 <= by_ < comp_hb height comps hv ->
+  last_writer (comp_wb width comps hv) (comp_hb height comps hv)
+              (scan_blocks width height comps hv)
+              (block_offset (comp_wb width comps hv) bx by_) = Some (bx, by_).
+Proof. exact scan_grid_ok. Qed.
+Print Assumptions C15_scan_grid_ok.
+Example C15_scan_grid_F16_witness_now_ok :
+  comp_wb 17 [(2, 2); (1, 1); (1, 1)] (2, 2) = 4 /\
+  last_writer 4 2 (scan_blocks 17 9 [(2, 2); (1, 1); (1, 1)] (2, 2)) (block_offset 4 0 1) = Some (0, 1).
+Proof. split; vm_compute; reflexivity. Qed.
+
+(* (3) convertToPixels: with the largest sampling factors on the first component (Y first:
+   every stream in the property's scope) the guard never fails, so no sample is left unset ... *)
+Theorem C15_pixel_guard_passes : forall width height c0 rest hv x y,
+  1 <= width -> 1 <= height -> In hv (c0 :: rest) ->
+  (forall c, In c (c0 :: rest) -> 1 <= fst c /\ 1 <= snd c) ->
+  max_h (c0 :: rest) = fst c0 -> max_v (c0 :: rest) = snd c0 ->
+  0 <= x < width -> 0 <= y < height ->
+  pixel_index width height (c0 :: rest) hv x y <> None.
+Proof. exact pixel_guard_passes. Qed.
+Print Assumptions C15_pixel_guard_passes.
+Example C15_pixel_guard_instance :
+  max_h [(2, 2); (1, 1); (1, 1)] = 2 /\ max_v [(2, 2); (1, 1); (1, 1)] = 2 /\
+  pixel_index 17 9 [(2, 2); (1, 1); (1, 1)] (2, 2) 16 8 = Some 384.
+Proof. repeat split; vm_compute; reflexivity. Qed.
+
+(* ... and every sample read comes from the block the scan wrote for that position: scan
+   block (sx/8, sy/8) with sx = x*H/H0, sy = y*V/V0 (nearest-neighbour upsampling) *)
+Theorem C15_pixel_read_ok : forall width height c0 rest hv x y i,
+  1 <= width -> 1 <= height -> In hv (c0 :: rest) ->
+  (forall c, In c (c0 :: rest) -> 1 <= fst c /\ 1 <= snd c) ->
+  0 <= x < width -> 0 <= y < height ->
+  pixel_index width height (c0 :: rest) hv x y = Some i ->
+  pixel_owner width height (c0 :: rest) hv x y =
+    Some (Z.quot (Z.quot (x * fst hv) (fst c0)) 8, Z.quot (Z.quot (y * snd hv) (snd c0)) 8).
+Proof. exact pixel_read_ok. Qed.
+Print Assumptions C15_pixel_read_ok.
+
+(* tightly packed output: one index per (pixel, channel) inside width*height*components *)
+Theorem C15_out_index_in_range : forall width height ncomp x y ch,
+  0 <= x < width -> 0 <= y < height -> 0 <= ch < ncomp ->
+  0 <= (y * width + x) * ncomp + ch < out_len width height ncomp.
+Proof. exact out_index_in_range. Qed.
+Print Assumptions C15_out_index_in_range.
